@@ -134,6 +134,53 @@ func c09Complete(files map[string][]byte, outDir string, pkgs []string) string {
 	return strings.Join(problems, "; ")
 }
 
+// c09ImportsResolve checks, for every generated .go file, that each import of a
+// package of the scratch module names a directory that exists in the tree and is
+// spelled the way the go tool accepts (no empty, "." or ".." element, no trailing
+// slash).  It is the cheap half of oracle 3 and runs on every exit-0 tree.
+func c09ImportsResolve(files map[string][]byte, outDir string) string {
+	dirs := map[string]bool{}
+	for name := range files {
+		if strings.HasSuffix(name, ".go") {
+			dirs[path.Dir(name)] = true
+		}
+	}
+	var problems []string
+	prefix := filepath.ToSlash(outDir)
+	for name, data := range files {
+		if !strings.HasSuffix(name, ".go") || prefix != "." && prefix != "" && !strings.HasPrefix(name, prefix+"/") {
+			continue
+		}
+		fset := token.NewFileSet()
+		f, err := parser.ParseFile(fset, name, data, parser.ImportsOnly)
+		if err != nil {
+			continue // reported by c09Complete
+		}
+		for _, im := range f.Imports {
+			p := strings.Trim(im.Path.Value, "\"`")
+			if p != engine.ModuleName && !strings.HasPrefix(p, engine.ModuleName+"/") {
+				continue
+			}
+			if p != path.Clean(p) || strings.HasSuffix(p, "/") {
+				problems = append(problems, fmt.Sprintf("%s imports %q, which is not a well-formed import path", name, p))
+				continue
+			}
+			rel := strings.TrimPrefix(strings.TrimPrefix(p, engine.ModuleName), "/")
+			if rel == "act" || rel == "gsim" {
+				continue
+			}
+			if !dirs[rel] {
+				problems = append(problems, fmt.Sprintf("%s imports %q, but no package was written to %s", name, p, rel))
+			}
+		}
+	}
+	sort.Strings(problems)
+	if len(problems) > 3 {
+		problems = append(problems[:3], fmt.Sprintf("(+%d more)", len(problems)-3))
+	}
+	return strings.Join(problems, "; ")
+}
+
 // c09SameAsRef implements oracle 2(b).
 func c09SameAsRef(ref, got map[string][]byte) string {
 	var problems []string
@@ -487,13 +534,16 @@ func RunC09(c *Ctx) error {
 	}
 	c.Logf("%d fault-free configurations (%d exit 0), max ticks %d", len(cfgs), exit0, maxTicks)
 
-	// compile every distinct exit-0 tree of a compilable grammar
+	// compile every distinct exit-0 tree of a compilable grammar: all of them with the
+	// in-process type checker, a sample of them with `go build` as a cross-check
 	type cjob struct {
-		cs  *c09Case
-		err string
+		cs    *c09Case
+		err   string
+		build bool
 	}
 	var cjobs []*cjob
 	seenTree := map[string]bool{}
+	nBuild := 0
 	for _, cs := range cfgs {
 		if cs.ref.Exit != 0 || !cs.gc.Compilable || cs.gc.IR == nil {
 			continue
@@ -503,13 +553,22 @@ func RunC09(c *Ctx) error {
 			continue
 		}
 		seenTree[h] = true
-		if c.Tier == "quick" && len(seenTree)%8 != 1 && !(strings.HasPrefix(cs.gc.ID, "awk-") && len(seenTree)%2 == 0) && len(cs.flags) > len(cs.gc.NeedFlags) {
-			continue // quick: every fourth distinct tree, and every hostile-spelling grammar
+		build := c.Tier == "thorough" && len(seenTree)%3 == 0 || len(seenTree)%16 == 1
+		if build {
+			nBuild++
 		}
-		cjobs = append(cjobs, &cjob{cs: cs})
+		cjobs = append(cjobs, &cjob{cs: cs, build: build})
 	}
 	err = c.ParallelDo(len(cjobs), func(w, i int) error {
-		cjobs[i].err = st.compile(st.workers[w], cjobs[i].cs.ref.GoFiles())
+		cj := cjobs[i]
+		cj.err = typecheckTree(cj.cs.ref.GoFiles())
+		if cj.build {
+			berr := st.compile(st.workers[w], cj.cs.ref.GoFiles())
+			if (berr == "") != (cj.err == "") && !strings.HasPrefix(berr, "harness: ") {
+				// the two oracles must agree; if not, the in-process one is not to be trusted
+				cj.err = "harness: go/types and go build disagree: types=" + oneLine(cj.err, 200) + " build=" + oneLine(berr, 200)
+			}
+		}
 		return nil
 	})
 	if err != nil {
@@ -523,11 +582,11 @@ func RunC09(c *Ctx) error {
 		}
 		if cj.err != "" {
 			c.Report(&Violation{Class: "uncompilable-output", Key: map[string]string{"grammar": cj.cs.gc.ID},
-				Detail: fmt.Sprintf("%s %v env=%+v: gocc exited 0 but `go build ./...` of its output fails: %s", cj.cs.gc.ID, cj.cs.flags, cj.cs.env, oneLine(cj.err, 400)),
+				Detail: fmt.Sprintf("%s %v env=%+v: gocc exited 0 but its output does not compile: %s", cj.cs.gc.ID, cj.cs.flags, cj.cs.env, oneLine(cj.err, 400)),
 				Plan:   c09Plan{Spec: cj.cs.spec, Env: cj.cs.env}})
 		}
 	}
-	c.Logf("%d distinct generated trees compiled", compiled)
+	c.Logf("%d distinct generated trees type-checked, %d of them also built with go build", compiled, nBuild)
 
 	// ---- pass B: fault enumeration ----
 	var jobs []*c09Job
@@ -766,6 +825,7 @@ func RunC09(c *Ctx) error {
 		"fault_free_configurations":  len(cfgs),
 		"fault_free_exit0":           exit0,
 		"trees_compiled":             compiled,
+		"trees_also_go_built":        nBuild,
 		"faulted_configurations":     faultCfgs,
 		"fault_kinds_fired":          fired,
 		"exit0_under_fault":          exit0UnderFault,
@@ -800,6 +860,12 @@ func c09Judge(c *Ctx, st *c09State, cs *c09Case, plan c09Plan, res *engine.Resul
 	if d := c09Complete(res.Files, cs.spec.OutDir(), expectedPackages(cs.gc, cs.flags)); d != "" {
 		c.Report(&Violation{Class: "exit0-incomplete", Key: key, Detail: desc + ": exit status 0 but " + d, Plan: plan})
 		return
+	}
+	if cs.gc.IR != nil && cs.env.Pre == "" {
+		if d := c09ImportsResolve(res.Files, cs.spec.OutDir()); d != "" {
+			c.Report(&Violation{Class: "import-does-not-resolve", Key: key, Detail: desc + ": exit status 0 but " + d, Plan: plan})
+			return
+		}
 	}
 	if ref != nil && outputFault && ref.Exit == 0 {
 		if d := c09SameAsRef(ref.Files, res.Files); d != "" {
@@ -893,7 +959,7 @@ func c09Replay(c *Ctx, st *c09State) error {
 		c09JudgeRerun(c, st, cs, v.Plan, r2)
 	}
 	if v.Class == "uncompilable-output" && res.Exit == 0 {
-		if e := st.compile(w, res.GoFiles()); e != "" {
+		if e := typecheckTree(res.GoFiles()); e != "" {
 			c.Report(&Violation{Class: "uncompilable-output", Key: map[string]string{"grammar": gc.ID}, Detail: oneLine(e, 400), Plan: v.Plan})
 		}
 	}
